@@ -121,4 +121,10 @@ theorem safety_any_lines (me ident real : Bytes) (ext : UnicodeExt) (lines : Lis
   simp only [feed_eq]
   exact Proofs.C13.safety_core me ident real ext lines
 
+/-- **a QUIT is a QUIT, with or without a message**: what the tracker does with it depends on who quit and on nothing else
+of the line - not on the parameters (RFC 2812 3.1.7: the quit message is optional), the tags or the raw text -/
+theorem quit_whatever_its_parameters (c : Go.Client.Client) (l l' : Go.Line) (h : l.nick = l'.nick) :
+    Go.Client.h_QUIT c l = Go.Client.h_QUIT c l' := by
+  simp [Go.Client.h_QUIT, h]
+
 end Props.C13
